@@ -13,7 +13,7 @@
 From Coq Require Import NArith Bool List Lia.
 From stdpp Require Import base list option.
 From RecordUpdate Require Import RecordSet.
-From RC Require Import Hdr Machine RunInd Inv InvP SafeMain SafeProps Pass PassMain SafeFinalPropsA SafeFinalProps SafeFinal SafeFinalProg.
+From RC Require Import Hdr Machine RunInd Inv InvP SafeMain SafeProps Pass PassMain SafeFinalPropsA SafeFinalProps SafeColl SafeFinal SafeFinalProg SafeFinalOwn.
 Import ListNotations RecordSetNotations.
 Local Open Scope N_scope.
 
@@ -129,7 +129,43 @@ Theorem C04_program_count :
 Proof. exact SafeFinalProg.prog_obs_count. Qed.
 Print Assumptions C04_program_count.
 
+(** ** What the last owner solely owned goes with it - one level (PARTIAL, see below).
+    INTENDED (C04_last_owner_recursive): for [Cc::drop] of [o] with [h_rc = 1], not IL/IQ, outcome
+    ONormal, every object solely owned by [o] (inductively: a field / cleaner target with
+    [h_rc = 1], not IL/IQ, of [o] or of a solely owned object) is VDropped and BFreed in the
+    result.  PROVED: the step of the drop glue of a value under destruction that drops field
+    [j] ([run .. (KDropFields o j)], any depth of the run): if the target [t] of that field has
+    strong count 1, is not linked in a collector list and has no finalizer pending in the state
+    where the step starts, and the step returns normally, then [t] is freed and its value
+    destroyed in the result (whatever the later steps of the glue do).  MISSING for the later
+    fields / the view from the entry of [Cc::drop] / the recursion: a frame fact of part A saying
+    that the header of a solely owned object is not changed by the activations in between
+    (SafeFinalOwn.v, final comment: conjunct [of_sole]); [Pre]/[Q] are the hypotheses under which
+    every activation of every program runs ([SafeFinal.run_okQ]). *)
+Theorem C04_last_owner_recursive_partial :
+  forall (K : conf) (P : prog),
+  (k_clean K = true -> k_weak K = true) -> wf_prog P = true ->
+  forall (n : nat) (b : bool) (E A : list id) (o : id) (j : nat) (m : machine) (x : obj) (t : id) (xt : obj) (m' : machine),
+  Pre K (PreC K) b E (KDropFields o j) m -> Q K A (KDropFields o j) m ->
+  get m o = Some x -> o_fields x !! j = Some (Some t) -> t <> o ->
+  get m t = Some xt -> h_rc (o_hdr xt) = 1 -> is_in_list_or_queue (o_hdr xt) = false ->
+  k_fin K && needs_fin (o_hdr xt) = false ->
+  run K P (S (S n)) (KDropFields o j) m = (m', ONormal) ->
+  exists y : obj, get m' t = Some y /\ o_box y = BFreed /\ o_vst y = VDropped.
+Proof. exact SafeFinalOwn.owned_field_freed. Qed.
+Print Assumptions C04_last_owner_recursive_partial.
+
 (** ** Pins *)
+Check C04_last_owner_recursive_partial :
+  forall (K : conf) (P : prog),
+  (k_clean K = true -> k_weak K = true) -> wf_prog P = true ->
+  forall (n : nat) (b : bool) (E A : list id) (o : id) (j : nat) (m : machine) (x : obj) (t : id) (xt : obj) (m' : machine),
+  Pre K (PreC K) b E (KDropFields o j) m -> Q K A (KDropFields o j) m ->
+  get m o = Some x -> o_fields x !! j = Some (Some t) -> t <> o ->
+  get m t = Some xt -> h_rc (o_hdr xt) = 1 -> is_in_list_or_queue (o_hdr xt) = false ->
+  k_fin K && needs_fin (o_hdr xt) = false ->
+  run K P (S (S n)) (KDropFields o j) m = (m', ONormal) ->
+  exists y : obj, get m' t = Some y /\ o_box y = BFreed /\ o_vst y = VDropped.
 Check C04_strong_count_exact :
   forall (K : conf) (E : list id) (self : option id) (l : loc) (m : machine) (r : rloc) (o : id),
   SInv K true E [] m -> resolve self l m = (m, Some r) -> read_loc r m = Some o ->
